@@ -1,18 +1,20 @@
 #!/bin/sh
 # Confirms every seeded change in a scratch worktree: patch applies, demo fails with it and passes without,
-# the repository's test-suite keeps the same failing set.  Writes /verif/seeded_incoming/verify.log
+# the repository's test-suite keeps the same failing set.
+# usage: verify_seeds.sh [<dir holding C*/mut*>] [<log file>]
 WT=/tmp/wt/verify
 git -C /repo worktree remove --force $WT 2>/dev/null
 git -C /repo worktree add --detach $WT HEAD >/dev/null 2>&1 || exit 2
 export PYTHONPATH=$WT/src
-LOG=/verif/seeded_incoming/verify.log
-: > $LOG
 cd $WT
 /venv/bin/python -m pytest -q -p no:cacheprovider --timeout=900 2>&1 | grep -E "^FAILED" | sed 's/ - .*//' | sort > /tmp/wt/base_failed.txt
+BASE=${1:-/verif/seeded_incoming}
+LOG=${2:-/verif/seeded_incoming/verify.log}
+: > $LOG
 echo "baseline failing: $(wc -l < /tmp/wt/base_failed.txt)" >> $LOG
-for d in /verif/seeded_incoming/C*/mut*; do
+for d in $BASE/C*/mut*; do
   p=$d/patch.diff; [ -f $d/patch_ported.diff ] && p=$d/patch_ported.diff
-  name=$(echo $d | sed 's|/verif/seeded_incoming/||')
+  name=$(echo $d | sed "s|$BASE/||")
   git -C $WT checkout -q -- . 
   before=$(cd $d && /venv/bin/python demo.py >/dev/null 2>&1; echo $?)
   if ! git -C $WT apply $p 2>/dev/null; then echo "$name: PATCH-DOES-NOT-APPLY" >> $LOG; continue; fi
